@@ -148,7 +148,7 @@ func (w wrapCore) Check(e zapcore.Entry, ce *zapcore.CheckedEntry) *zapcore.Chec
 	return ce
 }
 
-var outcomes = []string{"ok", "zero+err", "short+err", "full+err", "syncerr", "failing-core"}
+var outcomes = []string{"ok", "zero+err", "short+err", "full+err", "syncerr", "failing-core", "short+nil"}
 
 var sinkCfg = zapcore.EncoderConfig{MessageKey: "msg", LevelKey: "level", EncodeLevel: zapcore.LowercaseLevelEncoder}
 
@@ -221,6 +221,10 @@ func sinkFaults(r *ev.Run) {
 							sinks[j].Outcomes, errs[j] = []rec.Outcome{{N: -1, Err: werr}}, werr
 						case "syncerr":
 							sinks[j].SyncErrs = []error{errors.New("sync-failed")}
+						case "short+nil":
+							// a silent short write is nothing zap can see: whether it is reported is not judged,
+							// but it must not keep the entry from the other destinations
+							sinks[j].Outcomes = []rec.Outcome{{N: 3, Err: nil}}
 						}
 						if mode != "multisyncer" {
 							if o == "failing-core" {
@@ -285,7 +289,7 @@ func sinkFaults(r *ev.Run) {
 					} else if strings.Contains(rep, "write error") {
 						hasSyncErr := false
 						for _, n := range names {
-							if n == "syncerr" {
+							if n == "syncerr" || n == "short+nil" {
 								hasSyncErr = true
 							}
 						}
@@ -305,7 +309,7 @@ func sinkFaults(r *ev.Run) {
 
 // Run is the C10 monitor.
 func Run(r *ev.Run) {
-	r.Rule = "field faults: for each seeded base case every fault-capable site (object/array marshaler error at a chosen position, panicking Stringer/error, unencodable reflected value, failing zap.Stringers element) is made to fail in turn, plus one multi-fault variant; the entry goes through a real Logger and its line is compared with 'all other fields intact plus <key>Error'; sink faults: every outcome vector over {ok, (0,err), (short,err), (full,err), sync error, failing core} for 1..3 (quick) / 4 (thorough) tee destinations and multi-syncer sinks, rotated over a sequence of entries; distinct = distinct (base, site) / vectors"
+	r.Rule = "field faults: for each seeded base case every fault-capable site (object/array marshaler error at a chosen position, panicking Stringer/error, unencodable reflected value, failing zap.Stringers element) is made to fail in turn, plus one multi-fault variant; the entry goes through a real Logger and its line is compared with 'all other fields intact plus <key>Error'; sink faults: every outcome vector over {ok, (0,err), (short,err), (full,err), (short,nil), sync error, failing core} for 1..3 (quick) / 4 (thorough) tee destinations and multi-syncer sinks, rotated over a sequence of entries; distinct = distinct (base, site) / vectors"
 	fieldFaults(r)
 	sinkFaults(r)
 }
